@@ -278,7 +278,8 @@ def t_part(ctx, prop):
         cap = min(cap, 3e6)
     results = {}
     with concurrent.futures.ThreadPoolExecutor(max_workers=14) as ex:
-        futs = {n: ex.submit(run_schema, T, n, sm.bound_for(SCHEMAS[n], cap)) for n in run}
+        esc = set(ctx.cache.get('escalate') or [])
+        futs = {n: ex.submit(run_schema, T, n, sm.bound_for(SCHEMAS[n], THOROUGH_CAP if n in esc else cap)) for n in run}
         for n, f in futs.items(): results[n] = f.result()
     for n, r in results.items():
         s = SCHEMAS[n]
